@@ -76,3 +76,13 @@ pub fn c04_zero_key_cannot_be_imported(zero32: &[u8; 32], bytes: &[u8])
     proof { lemma_all_zero_reverse(bytes@); }
     assert(c is Err);
 }
+
+/// signcryption: a ciphertext whose U or W is the identity is invalid and decrypts to nothing
+pub fn c04_signcrypt_identity_is_invalid(ct: &SignCryptCiphertext, sk: &SecretKey, dk: &SignCryptDecryptionKey)
+    requires ct.u.dl() == 0 || ct.w.dl() == 0,
+{
+    let v = ct.is_valid();
+    let m = ct.decrypt(sk);
+    let m2 = dk.decrypt(ct);
+    assert(!v@ && !m.is_some_spec() && !m2.is_some_spec());
+}
